@@ -853,7 +853,12 @@ func runC06(c *vk.Ctx) {
 					}
 				}
 			}
-			if !check(op) {
+			okc := false
+			if rec, stack := vk.Guard(func() { okc = check(op) }); rec != nil {
+				c.Violate("C06.query_panicked", sig(op), "after %s a lockup query panicked: %v\n%s", op, rec, trunc(stack, 1800))
+				return
+			}
+			if !okc {
 				return
 			}
 			nu := 0
